@@ -103,7 +103,13 @@ def convert_to_multiline_string(
         joined_source += '"""'
     else:
         joined_source += '\n"""'
-    return '"""\n' + indent(joined_source, (variable_indent_size + offset) * " ")
+    # every non-empty line is indented, also the ones made of blanks only:
+    # inside of a block string they have to move together with the other lines
+    return '"""\n' + indent(
+        joined_source,
+        (variable_indent_size + offset) * " ",
+        lambda line: line.strip("\n") != "",
+    )
 
 
 def get_variable_indent_size(source: str) -> int:
